@@ -10,6 +10,7 @@ import (
 	"net/http/httptest"
 	"os"
 	"path/filepath"
+	"reflect"
 	"runtime"
 	"runtime/debug"
 	"sort"
@@ -136,7 +137,12 @@ func hxTok(s string) string {
 
 func implEval(src string, data *GV) string {
 	textwire.VerifReset()
-	out, err := textwire.EvaluateString(src, data.DataMap())
+	dm := data.DataMap()
+	out, err := textwire.EvaluateString(src, dm)
+	// the caller's data is never modified by rendering
+	if !data.hasOther() && !reflect.DeepEqual(dm, data.DataMap()) {
+		return "MUTATED the data map was modified by the render"
+	}
 	if err != nil {
 		return canonErr(err.Error(), "")
 	}
